@@ -111,7 +111,11 @@ lines.append("Each sub-agent saw only the text of one property and a scratch "
              "the check of another property, 4 were outside the domain "
              "(a private function, two MIME types for one name, two storage "
              "configurations in one directory, a direct call with a 3x4 "
-             "matrix), 6 became generator dimensions. %d changes in total: %d rejected as outside the "
+             "matrix), 6 became generator dimensions. Round 20 (S20-*) "
+             "returned to realistic pull requests: 30-100 lines over at least "
+             "two modules (an interface change and the adaptation of its "
+             "callers) with one integration mistake; all 20 were caught as "
+             "the checks stood. %d changes in total: %d rejected as outside the "
              "quantified domain (marked), %d not detected (marked, a "
              "documented limit), %d detected; "
              "the 'caught by' column says when a check had to be "
